@@ -23,6 +23,7 @@ THEOREMS = {
     "M3two": "the four scalar identities of `block_unitary` = unitarity of the restriction to {a,b}",
     "M3bs": "what the get_unitary / bs_matrix contracts establish entrywise implies unitarity of the N x N matrix",
     "Lcard": "all members below N iff counting the members below N gives the cardinality",
+    "Lsortperm": "two integer lists have the same sorted form iff one is a rearrangement of the other (completeness test of ModeSwaps for every size)",
 }
 STANDARD = {"propext", "Classical.choice", "Quot.sound"}
 
